@@ -1,12 +1,12 @@
 // Correspondence harness for C16: logsink/zip.ZipSendProxyThread against the Lean CodeModel
 // Golib.ZipSender.Model (driver drv_c16).
 //
-//   A  GetInstance: the settings a fresh singleton gets (defaults in force)
-//   B  fixed witnesses of the candidate defects (retained pack overwritten, queue not drained on stop)
-//   C  deterministic random histories on NewForVerif senders, stepped with StepForVerif /
-//      RunForVerif, both client behaviours (consume at hand-over / retain and re-inspect)
-//   D  free-running histories: the real background goroutine, concurrent producers and a
-//      concurrent SendDirect caller (built with -race in the thorough tier)
+//	A  GetInstance: the settings a fresh singleton gets (defaults in force)
+//	B  fixed witnesses of the candidate defects (retained pack overwritten, queue not drained on stop)
+//	C  deterministic random histories on NewForVerif senders, stepped with StepForVerif /
+//	   RunForVerif, both client behaviours (consume at hand-over / retain and re-inspect)
+//	D  free-running histories: the real background goroutine, concurrent producers and a
+//	   concurrent SendDirect caller (built with -race in the thorough tier)
 //
 // Every history is (1) evaluated against the property directly on the implementation
 // (each record exactly once and in order, counts, payload decodes with the real
